@@ -74,7 +74,7 @@ func (k *OpK) UnmarshalJSON(b []byte) error {
 
 // StatusSpec is what a handler returns.
 type StatusSpec struct {
-	ErrKind int    `json:"ek"` // 0 status error, 1 wrapped status, 2 plain error, 3 context.Canceled, 4 context.DeadlineExceeded
+	ErrKind int    `json:"ek"` // 0 status error, 1 wrapped status, 2 plain error, 3 context.Canceled, 4 context.DeadlineExceeded, 5 an error whose GRPCStatus() has code OK
 	Code    int    `json:"code"`
 	Msg     string `json:"msg"`
 	Details int    `json:"details"` // number of detail messages
@@ -316,9 +316,18 @@ func (sp *StatusSpec) Err() error {
 		return context.Canceled
 	case 4:
 		return context.DeadlineExceeded
+	case 5:
+		// an error value that carries a gRPC status whose code is OK (e.g. a relay's
+		// error type embedding the status its backend returned): still a failure
+		return okCodedErr{msg: sp.Msg}
 	}
 	return st.Err()
 }
+
+type okCodedErr struct{ msg string }
+
+func (e okCodedErr) Error() string              { return "relay failed: " + e.msg }
+func (e okCodedErr) GRPCStatus() *status.Status { return status.New(codes.OK, e.msg) }
 
 func (s *Sim) unaryHandler(srv any, ctx context.Context, dec func(any) error, ic grpc.UnaryServerInterceptor) (any, error) {
 	in := new(wrapperspb.BytesValue)
